@@ -38,6 +38,11 @@ def Suffix.render : Suffix → String
   | .each => " each month"
   | .per => " per month"
 
+/-- what `.replace(" each month", " per month")` does to one suffix -/
+def Suffix.toPer : Suffix → Suffix
+  | .each => .per
+  | .per => .per
+
 structure Label where
   base : String
   sfx : List Suffix
@@ -58,7 +63,7 @@ def addPer (l : Label) : Label := ⟨l.base, l.sfx ++ [.per]⟩
 /-- `u.split(" each month")[0]` -/
 def toTotal (l : Label) : Label := ⟨l.base, l.sfx.takeWhile (fun s => s != .each)⟩
 /-- `u.replace(" each month", " per month")` -/
-def toElement (l : Label) : Label := ⟨l.base, l.sfx.map (fun s => match s with | .each => .per | .per => .per)⟩
+def toElement (l : Label) : Label := ⟨l.base, l.sfx.map Suffix.toPer⟩
 /-- `"ratio" in u` -/
 def isRatio (l : Label) : Bool := hasSub l.base "ratio"
 /-- `"percent" in u` -/
@@ -72,7 +77,10 @@ def ratio : Label := ⟨"ratio", []⟩
 /-- convention for a single value: no `each month` anywhere -/
 def scalarOK (l : Label) : Bool := !l.hasEach
 /-- convention for a monthly series: exactly one `each month`, at the very end -/
-def seriesOK (l : Label) : Bool := l.sfx.getLast? == some .each && !(l.sfx.dropLast.contains .each)
+def seriesOK (l : Label) : Bool :=
+  match l.sfx.reverse with
+  | .each :: rest => !rest.contains .each
+  | _ => false
 
 end Label
 
@@ -323,19 +331,19 @@ def pick (a : FoodVal α) (i : Int) : Except Err (FoodVal α) :=
   | none => .error .index
   | some j => .ok (buildScalar (a.kcals.getD j 0) (a.fat.getD j 0) (a.protein.getD j 0) a.ku a.fu a.pu)
 
-/-- `get_month` -/
-def getMonth (a : FoodVal α) (i : Int) : Except Err (FoodVal α) :=
-  guard' a.series .assert <| guard' (validate a) .assert <|
+/-- month `i` as a quantity of its own: picked, then `set_units_from_list_to_element` -/
+def monthOf (a : FoodVal α) (i : Int) : Except Err (FoodVal α) :=
   match pick a i with
   | .error e => .error e
   | .ok m => relabelElement m
 
+/-- `get_month` -/
+def getMonth (a : FoodVal α) (i : Int) : Except Err (FoodVal α) :=
+  guard' a.series .assert <| guard' (validate a) .assert <| monthOf a i
+
 /-- `__getitem__` with an integer (after the fix: the single month is relabelled `per month`) -/
 def getInt (a : FoodVal α) (i : Int) : Except Err (FoodVal α) :=
-  guard' a.series .assert <| guard' (validate a) .assert <|
-  match pick a i with
-  | .error e => .error e
-  | .ok m => relabelElement m
+  guard' a.series .assert <| guard' (validate a) .assert <| monthOf a i
 
 /-- `__getitem__` with a slice `lo:hi` -/
 def getSlice (a : FoodVal α) (lo hi : Int) : Except Err (FoodVal α) :=
@@ -773,6 +781,32 @@ def labelOK (v : FoodVal α) : Bool :=
 /-- the list `units` agrees with the three labels (the weaker invariant every operation and every
     setter maintains, whatever its operands) -/
 def unitsAgree (v : FoodVal α) : Bool := v.units == [v.ku, v.fu, v.pu]
+
+/-- the one-month series equal to a single value: same numbers, labels with `each month` appended -/
+def asSeries (a : FoodVal α) : FoodVal α :=
+  { series := true, kcals := a.kcals, fat := a.fat, protein := a.protein,
+    ku := a.ku.addEach, fu := a.fu.addEach, pu := a.pu.addEach,
+    units := [a.ku.addEach, a.fu.addEach, a.pu.addEach] }
+
+/-- pre-condition on the caller's labels for the public constructor: a single value carries labels of
+    one form without `each month`; a series carries labels that, once the constructor has appended a
+    missing `each month`, are of one form with a single final `each month` -/
+def ctorLabelsOK (a : CtorArgs α) (ku fu pu : Label) : Bool :=
+  match a with
+  | .scalar _ _ _ => labelsFor false ku fu pu
+  | .series _ _ _ => labelsFor true ku.fixEach fu.fixEach pu.fixEach
+
+/-- the setters (they overwrite their own register, by design) -/
+def Op.isSetter : Op α → Bool
+  | .relabelTotal _ | .relabelElement _ | .relabelList _ | .setUnits _ _ _ _ | .getUnits _ => true
+  | _ => false
+
+/-- pre-conditions on the arguments that are not quantities: constructor labels as above, `in_units`
+    targets are plain unit names (as in the five `in_units_*` helpers) -/
+def Op.argsOK : Op α → Bool
+  | .construct a ku fu pu => ctorLabelsOK a ku fu pu
+  | .inUnits _ tk tf tp => tk.sfx.isEmpty && tf.sfx.isEmpty && tp.sfx.isEmpty
+  | _ => true
 
 end
 end Allfed.Food
